@@ -42,6 +42,12 @@ package env
 //@ spec fun rootOf(e *Env) *Env reads H:env.Env.parent
 //@ axiom rootOf-def: forall e *Env :: e != nil ==> rootOf(e) == ite(e.parent == nil, e, rootOf(e.parent)) && rootOf(e) != nil
 
+// lock discipline (C13): nolocks() = this activation holds no scope lock.
+//@ spec fun nolocks() bool = forall x *Env :: lockstate(x) == 0
+// depth(e): distance to the root. ASSUMPTION (acyclic parent chain; parent is only ever set on a fresh scope):
+//@ spec fun depth(e *Env) int reads H:env.Env.parent
+//@ axiom depth-parent: forall e *Env :: e != nil && e.parent != nil ==> depth(e.parent) < depth(e)
+
 // ---------------------------------------------------------------------------
 // constructors
 
@@ -56,7 +62,7 @@ package env
 //@ func (*Env).NewModule
 //@ props C12 C04
 //@ requires e != nil
-//@ requires [C13] unlocked: lockstate(e) == 0
+//@ requires [C13] unlocked: nolocks()
 //@ modifies e.values, mapof(e.values)
 //@ ensures dot: strContains(symbol, ".") ==> result.1 == ErrSymbolContainsDot && e.values == old(e.values)
 //@ ensures mod: result.0 != nil && fresh(result.0) && result.0.parent == e && result.0.values == nil
@@ -75,7 +81,7 @@ package env
 //@ func (*Env).DefineValue
 //@ props C12 C04
 //@ requires e != nil
-//@ requires [C13] unlocked: lockstate(e) == 0
+//@ requires [C13] unlocked: nolocks()
 //@ modifies e.values, mapof(e.values)
 //@ ensures dot: strContains(symbol, ".") ==> result == ErrSymbolContainsDot && e.values == old(e.values) && mapdom(e.values) == old(mapdom(e.values)) && mapvals(e.values) == old(mapvals(e.values))
 //@ ensures def: !strContains(symbol, ".") ==> result == nil && has(e.values, symbol) && e.values[symbol] == value
@@ -85,7 +91,7 @@ package env
 //@ func (*Env).Define
 //@ props C12 C04
 //@ requires e != nil
-//@ requires [C13] unlocked: lockstate(e) == 0
+//@ requires [C13] unlocked: nolocks()
 //@ modifies e.values, mapof(e.values)
 //@ ensures dot: strContains(symbol, ".") ==> result == ErrSymbolContainsDot && e.values == old(e.values) && mapdom(e.values) == old(mapdom(e.values)) && mapvals(e.values) == old(mapvals(e.values))
 //@ ensures def: !strContains(symbol, ".") ==> result == nil && has(e.values, symbol)
@@ -94,7 +100,7 @@ package env
 //@ func (*Env).DefineGlobalValue
 //@ props C12
 //@ requires e != nil
-//@ requires [C13] unlocked: lockstate(rootOf(e)) == 0
+//@ requires [C13] unlocked: nolocks()
 //@ modifies rootOf(e).values, mapof(rootOf(e).values)
 //@ ensures dot: strContains(symbol, ".") ==> result == ErrSymbolContainsDot && rootOf(e).values == old(rootOf(e).values)
 //@ ensures def: !strContains(symbol, ".") ==> result == nil && has(rootOf(e).values, symbol) && rootOf(e).values[symbol] == value
@@ -104,7 +110,7 @@ package env
 //@ func (*Env).DefineGlobal
 //@ props C12
 //@ requires e != nil
-//@ requires [C13] unlocked: lockstate(rootOf(e)) == 0
+//@ requires [C13] unlocked: nolocks()
 //@ modifies rootOf(e).values, mapof(rootOf(e).values)
 //@ ensures dot: strContains(symbol, ".") ==> result == ErrSymbolContainsDot && rootOf(e).values == old(rootOf(e).values)
 //@ ensures def: !strContains(symbol, ".") ==> result == nil && has(rootOf(e).values, symbol)
@@ -114,7 +120,7 @@ package env
 //@ func (*Env).SetValue
 //@ props C12 C04
 //@ requires e != nil
-//@ requires [C13] unlocked: lockstate(e) == 0
+//@ requires [C13] unlocked: nolocks()
 //@ modifies heap("MV:Int:Int"), heap("MP:Int")
 //@ ensures miss: old(nearest(e, symbol)) == nil ==> result != nil && heap("MV:Int:Int") == old(heap("MV:Int:Int")) && heap("MP:Int") == old(heap("MP:Int"))
 //@ ensures hit: old(nearest(e, symbol)) != nil ==> result == nil && heap("MP:Int") == old(heap("MP:Int")) && heap("MV:Int:Int") == store(old(heap("MV:Int:Int")), old(nearest(e, symbol)).values, store(old(mapvals(nearest(e, symbol).values)), symbol, value))
@@ -124,7 +130,7 @@ package env
 //@ func (*Env).Set
 //@ props C12
 //@ requires e != nil
-//@ requires [C13] unlocked: lockstate(e) == 0
+//@ requires [C13] unlocked: nolocks()
 //@ modifies heap("MV:Int:Int"), heap("MP:Int")
 //@ ensures miss: old(nearest(e, symbol)) == nil ==> result != nil && heap("MV:Int:Int") == old(heap("MV:Int:Int")) && heap("MP:Int") == old(heap("MP:Int"))
 //@ ensures hit: old(nearest(e, symbol)) != nil ==> result == nil && heap("MP:Int") == old(heap("MP:Int"))
@@ -132,7 +138,7 @@ package env
 //@ func (*Env).GetValue
 //@ props C12 C04
 //@ requires e != nil
-//@ requires [C13] unlocked: lockstate(e) == 0
+//@ requires [C13] unlocked: nolocks()
 //@ ensures found: foundV(e, symbol) ==> result.1 == nil && result.0 == lookupV(e, symbol)
 //@ ensures miss: !foundV(e, symbol) ==> result.1 != nil && result.0 == NilValue
 //@ use foundV-def(e, symbol)
@@ -142,19 +148,19 @@ package env
 //@ func (*Env).Get
 //@ props C12
 //@ requires e != nil
-//@ requires [C13] unlocked: lockstate(e) == 0
+//@ requires [C13] unlocked: nolocks()
 //@ ensures found: foundV(e, symbol) ==> result.1 == nil
 //@ ensures miss: !foundV(e, symbol) ==> result.1 != nil
 
 //@ func (*Env).GetValueSymbols
 //@ props C12
 //@ requires e != nil
-//@ requires [C13] unlocked: lockstate(e) == 0
+//@ requires [C13] unlocked: nolocks()
 
 //@ func (*Env).Delete
 //@ props C12
 //@ requires e != nil
-//@ requires [C13] unlocked: lockstate(e) == 0
+//@ requires [C13] unlocked: nolocks()
 //@ modifies mapof(e.values)
 //@ ensures gone: !has(e.values, symbol)
 //@ ensures others: forall k string :: k != symbol ==> (has(e.values, k) <==> old(has(e.values, k))) && (has(e.values, k) ==> e.values[k] == old(e.values[k]))
@@ -163,14 +169,15 @@ package env
 //@ func (*Env).DeleteGlobal
 //@ props C12
 //@ requires e != nil
-//@ requires [C13] unlocked: lockstate(e) == 0
+//@ requires [C13] unlocked: nolocks()
 //@ modifies heap("MP:Int"), heap("MV:Int:Int")
 //@ ensures here: old(e.parent == nil || has(e.values, symbol)) ==> !has(e.values, symbol)
 
 //@ func (*Env).Addr
 //@ props C12
 //@ requires e != nil
-//@ requires [C13] unlocked: lockstate(e) == 0
+//@ requires [C13] unlocked: forall x *Env :: depth(x) <= depth(e) ==> lockstate(x) == 0
+//@ use depth-parent(e)
 //@ ensures miss: !foundV(e, symbol) ==> result.1 != nil && result.0 == NilValue
 //@ use foundV-def(e, symbol)
 
@@ -180,7 +187,7 @@ package env
 //@ func (*Env).DefineReflectType
 //@ props C12
 //@ requires e != nil
-//@ requires [C13] unlocked: lockstate(e) == 0
+//@ requires [C13] unlocked: nolocks()
 //@ modifies e.types, mapof(e.types)
 //@ ensures dot: strContains(symbol, ".") ==> result == ErrSymbolContainsDot && e.types == old(e.types) && mapdom(e.types) == old(mapdom(e.types)) && mapvals(e.types) == old(mapvals(e.types))
 //@ ensures def: !strContains(symbol, ".") ==> result == nil && has(e.types, symbol) && e.types[symbol] == reflectType
@@ -190,7 +197,7 @@ package env
 //@ func (*Env).DefineType
 //@ props C12
 //@ requires e != nil
-//@ requires [C13] unlocked: lockstate(e) == 0
+//@ requires [C13] unlocked: nolocks()
 //@ modifies e.types, mapof(e.types)
 //@ ensures dot: strContains(symbol, ".") ==> result == ErrSymbolContainsDot && e.types == old(e.types) && mapdom(e.types) == old(mapdom(e.types)) && mapvals(e.types) == old(mapvals(e.types))
 //@ ensures def: !strContains(symbol, ".") ==> result == nil && has(e.types, symbol)
@@ -199,7 +206,7 @@ package env
 //@ func (*Env).DefineGlobalReflectType
 //@ props C12
 //@ requires e != nil
-//@ requires [C13] unlocked: lockstate(rootOf(e)) == 0
+//@ requires [C13] unlocked: nolocks()
 //@ modifies rootOf(e).types, mapof(rootOf(e).types)
 //@ ensures dot: strContains(symbol, ".") ==> result == ErrSymbolContainsDot && rootOf(e).types == old(rootOf(e).types)
 //@ ensures def: !strContains(symbol, ".") ==> result == nil && has(rootOf(e).types, symbol) && rootOf(e).types[symbol] == reflectType
@@ -209,7 +216,7 @@ package env
 //@ func (*Env).DefineGlobalType
 //@ props C12
 //@ requires e != nil
-//@ requires [C13] unlocked: lockstate(rootOf(e)) == 0
+//@ requires [C13] unlocked: nolocks()
 //@ modifies rootOf(e).types, mapof(rootOf(e).types)
 //@ ensures dot: strContains(symbol, ".") ==> result == ErrSymbolContainsDot && rootOf(e).types == old(rootOf(e).types)
 //@ ensures def: !strContains(symbol, ".") ==> result == nil && has(rootOf(e).types, symbol)
@@ -219,7 +226,7 @@ package env
 //@ func (*Env).Type
 //@ props C12
 //@ requires e != nil
-//@ requires [C13] unlocked: lockstate(e) == 0
+//@ requires [C13] unlocked: nolocks()
 //@ ensures found: foundT(e, symbol) ==> result.1 == nil && result.0 == lookupT(e, symbol)
 //@ ensures miss: !foundT(e, symbol) ==> result.1 != nil && result.0 == NilType
 //@ use foundT-def(e, symbol)
@@ -229,7 +236,7 @@ package env
 //@ func (*Env).GetTypeSymbols
 //@ props C12
 //@ requires e != nil
-//@ requires [C13] unlocked: lockstate(e) == 0
+//@ requires [C13] unlocked: nolocks()
 
 // ---------------------------------------------------------------------------
 // whole-scope operations
@@ -237,19 +244,21 @@ package env
 //@ func (*Env).String
 //@ props C12
 //@ requires e != nil
-//@ requires [C13] unlocked: lockstate(e) == 0
+//@ requires [C13] unlocked: nolocks()
 
 //@ func (*Env).GetEnvFromPath
 //@ props C12
 //@ requires e != nil
-//@ requires [C13] unlocked: lockstate(e) == 0
+//@ requires [C13] unlocked: nolocks()
 //@ ensures empty: len(path) < 1 ==> result.0 == e && result.1 == nil
 //@ ensures oneof: result.1 == nil ==> result.0 != nil
+//@ loop 0 invariant e != nil && heldmap() == old(heldmap())
+//@ loop 1 invariant e != nil && heldmap() == old(heldmap()) && 1 <= i
 
 //@ func (*Env).Copy
 //@ props C12
 //@ requires e != nil
-//@ requires [C13] unlocked: lockstate(e) == 0
+//@ requires [C13] unlocked: nolocks()
 //@ ensures fresh: result != nil && fresh(result) && result.parent == e.parent && result.externalLookup == e.externalLookup
 //@ ensures maps: (e.values == nil ==> result.values == nil) && (e.values != nil ==> result.values != nil && fresh(result.values)) && (e.types == nil ==> result.types == nil) && (e.types != nil ==> result.types != nil && fresh(result.types))
 //@ ensures src1: e.values == old(e.values) && e.types == old(e.types)
@@ -259,5 +268,5 @@ package env
 //@ func (*Env).DeepCopy
 //@ props C12
 //@ requires e != nil
-//@ requires [C13] unlocked: lockstate(e) == 0
+//@ requires [C13] unlocked: nolocks()
 //@ ensures result != nil && fresh(result)
